@@ -368,10 +368,10 @@ def run():
             ex_idx.append(i)
     ex_ans = dict(zip(ex_idx, harness("exec", ex_reqs)))
 
+    OUT_OF_RANGE = "float literal is out of range"
+
     def cl_e2e(case):
-        if case.get("kind", "").startswith("number") and case.get("overflow"):
-            return "F14-float-overflow-inf"
-        return None
+        return None               # F14 (overflow printed as inf) is FIXED by 1ae3488: nothing is excused any more
     for i, (p, a) in enumerate(zip(progs, comp)):
         src, tgt, (etag, exp), meta = p
         ck.count("e2e-sqlite", src + "|" + tgt)
@@ -379,6 +379,15 @@ def run():
         case = dict(meta, src=src, target=tgt, expected=(">= 2^1024" if meta.get("overflow") else str(exp)))
         if "ok" not in a and etag == "intq":
             ck.stat("e2e-sqlite", "boundary-rejected")            # too many digits / separators: a compile error is acceptable
+            continue
+        if meta.get("overflow"):
+            # a spelling whose value rounds to infinity in binary64 must be rejected with the out-of-range error (fix 1ae3488)
+            reasons = [e_.get("reason") or "" for e_ in a.get("err", [])] if "ok" not in a else []
+            if any(OUT_OF_RANGE in r_ for r_ in reasons):
+                ck.stat("e2e-sqlite", "overflow-rejected")
+            else:
+                case["compile"] = a
+                ck.violation("float literal %s overflows binary64 and must be a compile error; got %s" % (meta["lit"], a.get("ok") or reasons), case)
             continue
         if "ok" not in a:
             case["compile"] = a
@@ -433,7 +442,7 @@ def run():
 
     # ------------------------------------------------------------ 3b. float literals: the text translate_literal emits (Rust {:?}) vs Model/FloatFmt.v
     #      emit_float_rust on the DECIMAL value (m, e) the lexer model gives the spelling; compared on the class in_class
-    #      (<= 15 significant digits, normal range) and on the overflow class (inf, F14); outside: counted only
+    #      (<= 15 significant digits, normal range) and on the overflow class (compile error since 1ae3488); outside: counted only
     if model_lit is not None:
         fl = []
         for i, (src, pv, kind) in enumerate(lits):
@@ -454,13 +463,15 @@ def run():
             for (src, m_, sg_, mag_), a, (cls, txt) in zip(fl, fcomp, fmodel):
                 sql = a.get("ok", "")
                 got = sql[len("SELECT "):-len(" AS v FROM t")] if sql.startswith("SELECT ") and sql.endswith(" AS v FROM t") else None
-                mt = s_of(txt)
                 ck.count("float-text", src)
-                if mt == "inf":
+                if txt == "None":
                     ck.stat("float-text", "overflow")
-                    if got != "inf":
-                        ck.violation("float literal %s: the model says it overflows to inf, prqlc emits %r" % (src, got), {"kind": "float-text", "src": src, "model": mt, "impl": got})
-                elif cls:
+                    reasons = [e_.get("reason") or "" for e_ in a.get("err", [])]
+                    if "ok" in a or not any("float literal is out of range" in r_ for r_ in reasons):
+                        ck.violation("float literal %s: the model says it overflows binary64 and is rejected, prqlc answers %r" % (src, a.get("ok") or reasons), {"kind": "float-text", "src": src, "model": None, "impl": a})
+                    continue
+                mt = s_of(txt[1])
+                if cls:
                     ck.stat("float-text", "in-class")
                     if got != mt:
                         ck.violation("float literal %s: prqlc emits %r, the model of Rust's {:?} layout says %r" % (src, got, mt), {"kind": "float-text", "src": src, "model": mt, "impl": got})
